@@ -473,6 +473,28 @@ pub fn run(args: &Args, rep: &mut Report) {
             judge(rep, &b, &slots, (nrun + del) % 3 == 1, &format!("released:{}-slot run with long-name slots 0..={} released", nrun, del));
         }
     }
+    // ---- (b4) short names whose OEM bytes happen to form multi-byte UTF-8 sequences at every position (also across the
+    // base / extension border), behind a long-name run with a matching and with a foreign checksum
+    for seq in [&[0xC3u8, 0x89][..], &[0xE4, 0xB8, 0xAD][..], &[0xF0, 0x9F, 0x98, 0x80][..]] {
+        for pos in 0..=(11 - seq.len()) {
+            for good_chk in [true, false] {
+                n += 1;
+                if n % nshards != shard {
+                    continue;
+                }
+                let mut s2: [u8; 11] = *b"PROTEGE TXT";
+                s2[pos..pos + seq.len()].copy_from_slice(seq);
+                let name: Vec<u16> = "prot\u{e9}g\u{e9} name.txt".encode_utf16().collect();
+                let mut slots = good_run(&name, &s2, 0x20);
+                if !good_chk {
+                    for sl in slots.iter_mut().take(2) {
+                        sl[13] ^= 0x5A;
+                    }
+                }
+                judge(rep, &b, &slots, pos % 2 == 0, &format!("utf8-in-sfn:{}-byte sequence at {} chk-good={}", seq.len(), pos, good_chk));
+            }
+        }
+    }
     // ---- (c) maximal and over-long runs
     for units in [247usize, 248, 254, 255, 256, 259, 260, 261, 273, 390] {
         for fill in [0x61u16, 0x4e2d, 0xD800] {
